@@ -29,14 +29,36 @@ Definition obs_eqb (a b : obs) : bool :=
   && list_eqb Bool.eqb (o_present a) (o_present b)
   && (o_fee a =? o_fee b) && (o_bytes a =? o_bytes b) && (o_size a =? o_size b).
 
-(** known finding 1 (short-hash collision): everything but the short-hash
-    clause holds, and every pooled transaction that is not found under its
-    short hash shares that short hash with a different hash of the history *)
-Definition collision_sig (sh : N -> N) (hashes : list N) (o : obs) : bool :=
+(** known finding 1 (short-hash collision, what is left of it after chain33
+    a576c70): everything but the short-hash clause holds, and every pooled
+    transaction whose short-hash lookup is empty
+    - shares that short hash with a different hash of the history, and
+    - was pooled already at the previous observation and was not the
+      transaction found under its short hash there (it was pushed while another
+      transaction with its short hash was pooled, was therefore never indexed,
+      and the owner of the entry has left now).
+    A transaction that WAS found under its short hash and loses the entry while
+    it stays pooled (the repaired defect) does not match. *)
+Definition lookup_of (hashes : list N) (o : obs) (h : N) : option N :=
+  match find (fun x => N.eqb (fst x) h) (combine hashes (o_short o)) with
+  | Some (_, s) => s
+  | None => None
+  end.
+
+Definition never_owner (hashes : list N) (prev : option obs) (h : N) : bool :=
+  match prev with
+  | None => false
+  | Some po =>
+      mem_n h (o_walk po)
+      && negb (match lookup_of hashes po h with Some h' => N.eqb h' h | None => false end)
+  end.
+
+Definition collision_sig (sh : N -> N) (hashes : list N) (prev : option obs) (o : obs) : bool :=
   let fs := short_failures hashes o in
   match fs with
   | [] => false
-  | _ => forallb (fun h => existsb (fun h' => negb (N.eqb h' h) && N.eqb (sh h') (sh h)) hashes) fs
+  | _ => forallb (fun h => existsb (fun h' => negb (N.eqb h' h) && N.eqb (sh h') (sh h)) hashes
+                           && never_owner hashes prev h) fs
   end.
 
 Definition spec_all (sh : N -> N) (c : config) (txs : list tx) (senders hashes : list N)
@@ -46,20 +68,20 @@ Definition spec_all (sh : N -> N) (c : config) (txs : list tx) (senders hashes :
    spec_short hashes o).
 
 Fixpoint check_steps (sh : N -> N) (c : config) (txs : list tx) (senders hashes : list N)
-         (st : state) (steps : list (event * obs)) : verdict :=
+         (st : state) (prev : option obs) (steps : list (event * obs)) : verdict :=
   match steps with
   | [] => ok_verdict
   | (e, o) :: tl =>
       match step sh c st e with
       | (st', err) =>
           let mo := obs_eqb (observe sh senders hashes err st') o in
-          match check_steps sh c txs senders hashes st' tl with
+          match check_steps sh c txs senders hashes st' (Some o) tl with
           | (m, s, k) =>
               match spec_all sh c txs senders hashes (Some e) o with
               | (sb, ss) =>
                   if sb && ss then (mo && m, s, k)
                   else (mo && m, false,
-                        if sb && negb ss && collision_sig sh hashes o then 1%N else 0%N)
+                        if sb && negb ss && collision_sig sh hashes prev o then 1%N else 0%N)
               end
           end
       end
@@ -125,12 +147,11 @@ Definition XFinal (c : config) (tab : string) (txs : list tx) (o : obs) : option
 Definition check_case' (cs : case) : verdict :=
   match cs with
   | CHist c tab senders hashes txs steps =>
-      check_steps (sh_of tab) c txs senders hashes init steps
+      check_steps (sh_of tab) c txs senders hashes init None steps
   | CFinal c tab senders hashes txs o =>
+      (* no previous observation: nothing can match the known finding *)
       match spec_all (sh_of tab) c txs senders hashes None o with
-      | (sb, ss) =>
-          (true, sb && ss,
-           if sb && negb ss && collision_sig (sh_of tab) hashes o then 1%N else 0%N)
+      | (sb, ss) => (true, sb && ss, 0%N)
       end
   end.
 
